@@ -206,8 +206,8 @@ def ev(body, e, leaf, depth=0):
             return dv in v
         for br, where in zip(e[2], e[4]):
             dnf = None
-            if not (isinstance(where, tuple) and where and where[0] == 'cond') and not b2.loops():
-                dnf = b2.path_dnf(where)
+            if not (isinstance(where, tuple) and where and where[0] == 'cond'):
+                dnf = b2.path_dnf(where) if not b2.loops() else b2.branch_dnf(where)
             if dnf is None:
                 dnf = [phi_branch_conditions(b2, where)]
             # the branch is infeasible only when every path to it has a decision known to be false
